@@ -222,7 +222,7 @@ class OrderProbe(DefaultTransformVisitor):
     """A DefaultTransformVisitor that records what it is handed, in the order it is handed it, instead of
     descending: `log` gets ('expr', e) for `_visit_expr(e, ..)` and ('block', b) for `_visit_block(b, ..)`.
     The visit methods of the statement / expression classes are the inherited, unmodified ones."""
-    log: list
+    log: 'list[tuple[str, object]]'
 
     def _visit_expr(self, e, ctx):
         self.log.append(('expr', e))
@@ -238,7 +238,7 @@ class OrderProbe(DefaultTransformVisitor):
 
 class OrderProbeD(DefaultVisitor):
     """the same probe for the non-rebuilding DefaultVisitor"""
-    log: list
+    log: 'list[tuple[str, object]]'
 
     def _visit_expr(self, e, ctx):
         self.log.append(('expr', e))
